@@ -80,6 +80,7 @@ class Contract:
         self.note = kw.pop("note", "")
         self.inline_depth = kw.pop("inline_depth", 0)
         self.ghost_at = kw.pop("ghost_at", {})     # anchor (ast.unparse of a statement) -> [ghost stmts] run after it
+        self.ghost_before = kw.pop("ghost_before", {})  # anchor -> [ghost stmts] run before the statement
         self.lemmas_at = kw.pop("lemmas_at", {})
         self.unroll = kw.pop("unroll", {})          # loop ordinal -> max iterations (bounded proof, P<=n)
         self.scenarios = kw.pop("scenarios", None)
